@@ -25,7 +25,10 @@ mod bloomlog;
 mod tokencache;
 mod cc;
 mod sentpk;
+mod dgram;
+mod mtud;
 mod snapshot;
+mod cindex;
 mod wire;
 
 pub use snapshot::{PathSnap, Snapshot, SpaceSnap, StreamsSnap};
@@ -105,6 +108,9 @@ fn registry(name: &str) -> Option<Ctor> {
         "tokencache" => || Box::new(tokencache::TokenCacheC::new()),
         "sentpk" => || Box::new(sentpk::SentpkC::new()),
         "cc" => || Box::new(cc::CcC::new()),
+        "cindex" => || Box::new(cindex::CindexC::new()),
+        "dgram" => || Box::new(dgram::DgramC::new()),
+        "mtud" => || Box::new(mtud::MtudC::new()),
         _ => return None,
     })
 }
